@@ -8,6 +8,7 @@ from ..canon import canon, content
 from ..engine import seq_iter, seq_shards
 
 ID = "C04"
+LEAN = True  # cases are distinct by construction; see engine.Acc
 RULE = (
     "triples D1 . X . '\\n' . D2 with D1 in 4 well-formed documents ending in a complete block, D2 in 5 well-formed documents "
     "starting with '@type{', X = every token sequence over the splitter alphabet up to the bound, plus every prefix and every "
